@@ -198,6 +198,49 @@ func body(nSenders, perSender int, frag bool, typ uint8, blockedFirst bool) func
 	}
 }
 
+// light: two senders x one frame, one handler, no draining thread
+// (exhaustible: the whole interleaving tree is explored in thorough).
+func light() {
+	ca, cb := vnet.NewPair("a", "b")
+	a := net.NewEndPoint(ca)
+	frameType = net.Post
+	q := make(chan *net.Message, 8)
+	b := net.EndPointFinalizer(cb, func(e net.EndPoint) {
+		e.MakeHandler(func(h *net.Header) (bool, bool) { return true, true }, q, nil)
+	})
+	vrt.Explore()
+	var ws []*vrt.Thread
+	for s := 1; s <= 2; s++ {
+		s := s
+		ws = append(ws, vrt.GoWorker(fmt.Sprintf("sender%d", s), func() {
+			id := uint32(s * 100)
+			a.Send(net.NewMessage(net.NewHeader(net.Post, uint32(s), 9, 50, id), payload(id, sizes[s%len(sizes)])))
+		}))
+	}
+	vrt.Quiesce()
+	for _, w := range ws {
+		if !w.Done() {
+			vrt.Failf("hang/sender", "sender blocked on %s", w.BlockedOn())
+		}
+	}
+	var got []uint32
+	for len(q) > 0 {
+		m := <-q
+		if !intact(m) {
+			vrt.Failf("corrupt/all", "damaged frame: header %+v, %d payload bytes", m.Header, len(m.Payload))
+		}
+		got = append(got, m.Header.ID)
+	}
+	if len(got) != 2 || got[0] == got[1] {
+		vrt.Failf("missing/all", "received %v of the frames [100 200]", got)
+	}
+	if len(got) == 2 && got[0] == 200 {
+		vrt.Flag("sender-overtaken")
+	}
+	vrt.Observe("order=%v", got)
+	_ = b
+}
+
 // registration: two goroutines register a handler each on one endpoint at the
 // same time; afterwards every registered handler receives every frame.
 func registration() {
@@ -248,6 +291,8 @@ func registration() {
 }
 
 func init() {
+	reg.Register(&reg.Scenario{Property: "C10", Name: "two-senders-one-frame-exhaustive", Body: light, Quick: 2, Thorough: 99,
+		Doc: "2 senders x 1 frame, one handler, no draining thread: the whole interleaving tree", MustFlag: []string{"sender-overtaken"}})
 	reg.Register(&reg.Scenario{Property: "C10", Name: "concurrent-registration", Body: registration, Quick: 2, Thorough: 99,
 		Doc: "two goroutines call MakeHandler on one endpoint at the same time; then two frames arrive: both handlers get both"})
 	reg.Register(&reg.Scenario{Property: "C10", Name: "calls-blocked-first-handler", Body: body(2, 2, false, net.Call, true), Quick: 2, Thorough: 4,
